@@ -455,7 +455,7 @@ func combined(x *mon.Ctx) {
 	}
 	reps := x.Scale(1, 8)
 	for _, q := range append(append([]*npoint{}, e.ps.all...), e.ps.sparse...) {
-		sparse := q.kind == "sparse-x" || q.kind == "sparse-y"
+		sparse := q.kind != "inf" && q.kind != "smallmul" && q.kind != "extreme" && q.kind != "random"
 		for _, rel := range rels {
 			if (rel == "equal" || rel == "inverse") && q.k == nil {
 				continue // discrete logarithm unknown: the relation cannot be constructed
